@@ -231,7 +231,7 @@ Proof.
     rewrite (flush_all_clean b1a s (proj1 Hi) c0 Hin). reflexivity. }
   repeat apply clean_app; trivial.
   - apply clean_tag. intros r Hin. apply in_flat_map in Hin. destruct Hin as [p [_ Hin]].
-    destruct (znth (b_msgs b1) (p - 1)); [|destruct Hin]. destruct k; destruct Hin as [<-|[]]; reflexivity.
+    destruct (znth (b_msgs b1) (p - 1)); [|destruct Hin]. destruct k; repeat (destruct Hin as [<-|Hin]; [reflexivity|]); destruct Hin.
   - intros r Hin. match type of Ed with dispatch ?B ?D ?R = _ =>
       replace o2 with (snd (dispatch B D R)) in Hin by (rewrite Ed; reflexivity) end.
     apply dispatch_out in Hin. apply neutral_not_expunge. apply notes_at_neutral_in in Hin. exact Hin.
